@@ -25,6 +25,11 @@ CHECKS["C12"] = ("Coq theorems for an ARBITRARY inner implementer T (any set of 
          "Result<T,Meta> (keeps the original item), SpannedValue (value's own range), WithOriginal (copy of the item), Override (word = Inherit, every other form exactly T), the absent table, "
          "two-level compositions. Tied to the code by running W<T>::from_meta(m) and T::from_meta(m) on the same m for 10 wrappers x 11 inner targets and all 100 two-level compositions.",
          "Coq proof (record-of-overrides model of the trait, quantified over all implementers) + per-run differential correspondence")
+CHECKS["C13"] = ("Coq theorems relative to syn's grammars as oracles: a bare expression / path is returned token for token through any nesting of invisible groups, a string literal is its contents "
+         "re-parsed by the same grammar, bare and quoted spellings agree under syn's print/parse round trip, every other form is rejected with an error spanned at the expression, literal vectors "
+         "are element-wise in order, literal targets keep the user's token, the two expression helpers differ only on a string literal. Tied to the code by running every syntax-valued target "
+         "of from_meta.rs / util on a grammar of paths, identifiers, expressions, types and literals (bare, quoted, grouped).",
+         "Coq proof (structural induction over expressions / groups, oracle-relative) + per-run differential correspondence")
 PARTIAL = {}
 def chk(pid):
     text, tech = CHECKS[pid]
